@@ -271,7 +271,7 @@ class IsoText(_D):
     needs_ply = False
 
     def cases(self, tier):
-        ms = (1, 2, 6, 12) if tier == 'quick' else range(1, 13)
+        ms = range(1, 13)
         return [{'month': m, 'shape': sh, 'sep': sep} for m in ms for sh in (10, 16, 19) for sep in ((' ', 'T') if sh > 10 else ('',))]
 
     def build(self, e, p):
